@@ -161,11 +161,17 @@ pub fn check_tokens(s: &str, ops: &OpSet, stage: &str, out: &mut WorkerOut) {
             let _ = (ec, lc);
             out.outcomes.insert("both-reject".into());
         }
-        (Res::Err(e), Ok(t)) => out.fail(
-            format!("lex:rejected-valid:{}", err_class(e)),
-            case(),
-            format!("engine: {}; model tokens: {}", e, kinds(t)),
-        ),
+        (Res::Err(e), Ok(t)) => {
+            // a digit run that is a well-formed decimal but does not fit 96 bits / 28 places has
+            // no value the language can give it: the properties do not say whether it is rejected
+            // or approximated, so neither is flagged (C09 quantifies over representable literals)
+            if t.iter().any(|x| x.kind == TK::Num && lex::decimal_parts(&x.text).is_none()) {
+                out.count("skipped_number_not_representable", 1);
+                out.outcomes.insert("number-not-representable".into());
+                return;
+            }
+            out.fail(format!("lex:rejected-valid:{}", err_class(e)), case(), format!("engine: {}; model tokens: {}", e, kinds(t)))
+        }
         (Res::Ok(t), Err(le)) => out.fail(
             format!("lex:accepted-invalid:{:?}", le),
             case(),
@@ -202,6 +208,8 @@ pub fn check_tokens(s: &str, ops: &OpSet, stage: &str, out: &mut WorkerOut) {
                     }
                     "number" => match (lex::decimal_parts(slice), text.parse::<rust_decimal::Decimal>()) {
                         (Some((m, sc)), Ok(d)) => d.mantissa() as u128 == m && d.scale() == sc && !d.is_sign_negative(),
+                        // well-formed but not representable: out of the quantified domain (see above)
+                        (None, Ok(_)) => lex::valid_decimal_text(slice),
                         _ => false,
                     },
                     "bool" => (slice == "true" || slice == "True") == (text == "true") && matches!(slice, "true" | "True" | "false" | "False"),
@@ -266,7 +274,7 @@ impl Prop for C10 {
     }
     fn plan(&self, tier: Tier) -> Plan {
         let sw = sweeps(tier);
-        let stages = sw
+        let mut stages: Vec<Stage> = sw
             .iter()
             .enumerate()
             .map(|(i, (cfg, s))| Stage {
@@ -277,6 +285,13 @@ impl Prop for C10 {
                 what: format!("operator set '{}': all strings of <= {} fragments over {} fragments", cfg, s.max_len, s.alphabet.len()),
             })
             .collect();
+        stages.push(Stage {
+            name: "long-tokens".into(),
+            len: long_token_inputs(tier.pick(14, 17)).len() as u64,
+            chunk: 200,
+            timeout: Duration::from_secs(600),
+            what: "one long token per input (33 shapes x every length 1..70 and 2^k-1, 2^k, 2^k+1): spans, texts and kinds against the reference lexer".into(),
+        });
         Plan {
             stages,
             rule: format!(
@@ -296,6 +311,24 @@ impl Prop for C10 {
     }
     fn run(&self, tier: Tier, stage: usize, a: u64, b: u64, out: &mut WorkerOut) {
         let sw = sweeps(tier);
+        if stage == sw.len() {
+            let inputs = long_token_inputs(tier.pick(14, 17));
+            let ops = OpSet::builtin();
+            for i in a..b {
+                out.idx = Some(i);
+                let (name, text) = &inputs[i as usize];
+                let mut tmp = WorkerOut::default();
+                check_tokens(text, &ops, "long-tokens", &mut tmp);
+                let fails = std::mem::take(&mut tmp.fails);
+                out.merge(tmp);
+                for (k, (f, _)) in fails {
+                    out.fail(k, format!("long-tokens|{}", name), f.detail.chars().take(300).collect::<String>());
+                }
+            }
+            out.count("states", b - a);
+            out.count("transitions", b - a);
+            return;
+        }
         let (cfg, strings) = &sw[stage];
         let xthread = cfg.ends_with("-xthread");
         let cfg = &cfg.trim_end_matches("-xthread");
@@ -327,7 +360,11 @@ impl Prop for C10 {
         out.count("transitions", b - a);
     }
     fn case_text(&self, tier: Tier, stage: usize, i: u64) -> String {
-        show(&sweeps(tier)[stage].1.get(i))
+        let sw = sweeps(tier);
+        if stage == sw.len() {
+            return long_token_inputs(tier.pick(14, 17))[i as usize].0.clone();
+        }
+        show(&sw[stage].1.get(i))
     }
     fn crash_key(&self, _t: Tier, _s: usize, _i: u64, how: &str) -> String {
         format!("{}:tokenize", how)
